@@ -3,7 +3,8 @@
 Proof:  coq/Properties/C04.v (STORE refines the reference set operations for every flag list and
         message; \\Recent out of reach; \\Seen/unseen complements in every reachable world; the
         flag<->sequence maps are a bijection outside reserved spellings and are the generated ones)
-Tie:    G constants.py maps regenerated on every run; X on Model/Mbox.v: every FETCH/STORE response
+Tie:    G constants.py maps and mbox.unstorable_keywords regenerated on every run (the latter proved equal to
+        the model's reserved_kw filter and run against the original); X on Model/Mbox.v: every FETCH/STORE response
         and every notification any session receives is compared with the model (flag sets);
         flag oracle on snapshots + end-of-history probes (FETCH FLAGS vs SEARCH by every flag).
 """
@@ -17,12 +18,76 @@ MIX = {"store": 22, "fetch": 14, "append": 9, "copy": 6, "search": 8, "noop": 6,
        "expunge": 3, "move": 2, "idle": 3, "close": 1, "check": 1, "unselect": 1, "restart": 1}
 
 
+def translator_validation(ctx):
+    """Gen/Keywords.v (mbox.unstorable_keywords as py2v renders it) evaluated inside Coq against the original on generated
+    keyword lists; Proofs/KeywordsBridge.v proves it equal to the filter by Model/Mbox.reserved_kw."""
+    import re
+    from asimap.mbox import unstorable_keywords
+    from core import clist, cstr
+
+    rng = ctx.rng
+    pool = ["Seen", "seen", "unseen", "Unseen", "replied", "Deleted", "Draft", "flagged", "Recent", "kw1", "kw2", "$Forwarded",
+            "a:b", ":", "x:", "caf\xe9", "\xff", "", "Seen ", "\\Seen", "\\Answered", "Flagged", "recent", "NonJunk", "a b", "~", "\x7f"]
+    cases = []
+    for _ in range(300 if ctx.thorough else 80):
+        fl = [rng.choice(pool) for _ in range(rng.randint(0, 5))]
+        cases.append((fl, list(unstorable_keywords(fl))))
+        ctx.count({"unstorable_keywords": fl}, nontrivial=bool(fl))
+    t = ("From Asimap Require Import Base.Res Gen.Keywords.\nFrom Coq Require Import String.\n"
+         "Fixpoint sl_eqb (a b : list string) := match a, b with [], [] => true | x :: a', y :: b' => String.eqb x y && sl_eqb a' b' "
+         "| _, _ => false end.\n"
+         "Definition chk (c : list string * list string) : bool := match unstorable_keywords (fst c) with Ok r => sl_eqb r (snd c) "
+         "| Err _ => false end.\n"
+         "Fixpoint bad (i : nat) (cs : list (list string * list string)) := match cs with [] => [] | c :: r => "
+         "if chk c then bad (S i) r else i :: bad (S i) r end.\n")
+    t += ("Definition cases : list (list string * list string) := "
+          + clist([f"({clist([cstr(x) for x in a])}, {clist([cstr(x) for x in b])})" for a, b in cases]) + ".\n")
+    t += "Eval vm_compute in (bad 0 cases).\n"
+    out = ctx.coq.eval_cases("c04gen", t)
+    idx = [int(x) for x in re.findall(r"\d+", core.parse_coq_values(out)[0])]
+    for i in idx[:2]:
+        ctx.proof_broken.append({"what": "translator validation: Gen/Keywords.v and mbox.unstorable_keywords differ",
+                                 "flags": cases[i][0], "python": cases[i][1]})
+    ctx.extra["generated_unstorable_keywords_cases"] = len(cases)
+
+
+def search_keywords(ctx):
+    """the tie is broken (the source changed into something the translator or the bridge proof does not cover): look for a
+    keyword on which the implementation's unstorable_keywords differs from the model's reserved_kw (the predicate under which
+    C04_flag_seq_roundtrip and C04_flag_to_seq_injective are proved)"""
+    import re
+    from asimap.mbox import unstorable_keywords
+    from core import clist, cstr
+
+    pool = ["Seen", "seen", "unseen", "Unseen", "replied", "Deleted", "Draft", "flagged", "Recent", "kw1", "$Forwarded", "a:b", ":",
+            ":x", "x:", "caf\xe9", "\xff", "", "Seen ", "\\Seen", "Flagged", "recent", "a b", "~", "\x7f", "un:seen", "k\x80"]
+    try:
+        ctx.coq.build(["Model/Mbox.vo"])
+        res = [bool(unstorable_keywords([k])) for k in pool]
+        t = ("From Asimap Require Import Base.Res Model.Mbox.\n"
+             "Fixpoint bad (i : nat) (cs : list (string * bool)) := match cs with [] => [] | c :: r => "
+             "if Bool.eqb (reserved_kw (fst c)) (snd c) then bad (S i) r else i :: bad (S i) r end.\n"
+             "Eval vm_compute in (bad 0 " + clist([f"({cstr(k)}, {core.cbool(r)})" for k, r in zip(pool, res)]) + ").\n")
+        out = ctx.coq.eval_cases("c04search", t)
+    except Exception as e:  # noqa: BLE001
+        ctx.extra["keyword_search_error"] = str(e)[-300:]
+        return
+    for i in [int(x) for x in re.findall(r"\d+", core.parse_coq_values(out)[0])][:2]:
+        ctx.violation(f"keyword {pool[i]!r}: unstorable_keywords says {'refuse' if res[i] else 'accept'}, the proved model says the "
+                      "opposite (accepted reserved spellings alias system flags; ':' and non-ASCII corrupt .mh_sequences)",
+                      {"keyword": pool[i], "unstorable_keywords": res[i], "call": "asimap.mbox.unstorable_keywords([keyword])"})
+
+
 def run(ctx):
     ctx.coverage["rule"] = ("histories of 45/70 commands (1-3 sessions, two mailboxes) biased to STORE (+/-/=, SILENT, UID), "
                             "FETCH (FLAGS, BODY.PEEK, BODY), APPEND with flags, COPY, SEARCH by flag; flags drawn from the "
                             "system flags, keywords kw1 kw2 $Forwarded, the reserved spellings and \\Recent; non-trivial = "
                             "the history contains a REPLACE store or a non-PEEK body fetch on an unseen message")
     ok = ctx.prove("Properties/C04.v")
+    if ok:
+        translator_validation(ctx)
+    else:
+        search_keywords(ctx)
     n = 400 if ctx.thorough else 64
     hs = mboxx.generate(ctx, n, 70 if ctx.thorough else 45, mix=MIX, pack=(4, 4, 5))
     for h in [h for h in hs if h.error][:3]:
